@@ -9,16 +9,23 @@ def kindOfJson (j : Json) : Except String OpKind := do
     match s with
     | "addi" => pure .addi | "muli" => pure .muli | "subi" => pure .subi | "extsi" => pure .extsi
     | "trunci" => pure .trunci | "shrsi" => pure .shrsi | "minsi" => pure .minsi | "maxsi" => pure .maxsi
+    | "select" => pure .select
     | _ => throw s!"bad kind {s}"
   | _ =>
     match (← arr j).toList with
-    | [t, c] => if (← str t) == "const" then return .const (← int c) else throw "bad kind"
+    | [t, c] =>
+      let t ← str t
+      if t == "const" then return .const (← int c)
+      else if t == "cmpi" then return .cmpi (← nat c)
+      else throw "bad kind"
     | [t, n, c] => if (← str t) == "other" then return .other (← str n) (← bool c) else throw "bad kind"
     | _ => throw "bad kind"
 
 def kindToJson : OpKind → Json
   | .addi => "addi" | .muli => "muli" | .subi => "subi" | .extsi => "extsi"
   | .trunci => "trunci" | .shrsi => "shrsi" | .minsi => "minsi" | .maxsi => "maxsi"
+  | .select => "select"
+  | .cmpi p => Json.arr #["cmpi", jNat p]
   | .const c => Json.arr #["const", jInt c]
   | .other n c => Json.arr #["other", Json.str n, Json.bool c]
 
@@ -101,23 +108,34 @@ def paramsOfJson (j : Json) : Except String RescaleParams := do
            maxInt := ← int (← field j "max_int"), minInt := ← int (← field j "min_int"),
            doubleRound := ← bool (← field j "double_round") }
 
-/-- {"params", "args"} -> body | {"raised": "IndexError"} -/
+/-- {"fixed", "params", "args"} -> body | {"raised": "IndexError"} (upstream) | {"unchanged": true} (fixed, pattern returns) -/
 def rescaleBodyH : Handler := fun j => do
+  let fixed ← bool (← field j "fixed")
   let p ← paramsOfJson (← field j "params")
   let args ← listOf nat (← field j "args")
-  match rescaleBody p args with
-  | none => return Json.mkObj [("raised", "IndexError")]
-  | some b => return bodyToJson b
+  if fixed then
+    match rescaleBodyFixed p args with
+    | none => return Json.mkObj [("unchanged", Json.bool true)]
+    | some b => return bodyToJson b
+  else
+    match rescaleBody p args with
+    | none => return Json.mkObj [("raised", "IndexError")]
+    | some b => return bodyToJson b
 
-/-- {"params", "ch", "xs": [int]} -> [[expand | null, spec | null]…] (unsigned values) -/
+/-- {"fixed", "params", "ch", "wi", "wr", "xs": [int]} -> [[expand | null, spec | null]…] (unsigned values; expand at the
+    result width `wr` for the fixed lowering, at 8 bits for the upstream one) -/
 def rescaleEvalH : Handler := fun j => do
+  let fixed ← bool (← field j "fixed")
   let p ← paramsOfJson (← field j "params")
   let ch ← nat (← field j "ch")
+  let wi ← nat (← field j "wi")
+  let wr ← nat (← field j "wr")
   let xs ← listOf int (← field j "xs")
   return jList (fun x =>
-    let bx := BitVec.ofInt 32 x
-    Json.arr #[jOpt (fun (r : BitVec 8) => jNat r.toNat) (rescaleExpand p bx),
-               jOpt (fun (r : BitVec 32) => jNat r.toNat) (rescaleSpec p ch bx)]) xs
+    let bx := BitVec.ofInt wi x
+    let e := if fixed then jOpt (fun (r : BitVec wr) => jNat r.toNat) (rescaleExpandFixed p bx wr)
+             else jOpt (fun (r : BitVec 8) => jNat r.toNat) (rescaleExpand p (BitVec.ofInt 32 x))
+    Json.arr #[e, jOpt (fun (r : BitVec 32) => jNat r.toNat) (rescaleSpec p ch bx)]) xs
 
 def supportedOfJson (j : Json) : Except String Supported := do
   match (← arr j).toList with
@@ -162,7 +180,11 @@ def mbodyToJson (b : MBody) : Json :=
 /-- {"mbody"} -> {"fired": bool, "out": mixed body after LowerLinalgBody} -/
 def lowerH : Handler := fun j => do
   let b ← mbodyOfJson (← field j "mbody")
-  return Json.mkObj [("fired", Json.bool (lowerLinalgBody b).isSome), ("out", mbodyToJson (lowerResult b))]
+  let fixed ← bool (← field j "fixed")
+  if fixed then
+    return Json.mkObj [("fired", Json.bool (lowerLinalgBodyFixed b).isSome), ("out", mbodyToJson (lowerResultFixed b))]
+  else
+    return Json.mkObj [("fired", Json.bool (lowerLinalgBody b).isSome), ("out", mbodyToJson (lowerResult b))]
 
 /-- {"mbody", "ins"} -> per input list: meaning of the mixed body -/
 def mevalH : Handler := fun j => do
